@@ -117,6 +117,13 @@ impl FeoxStore {
                 Metadata::from_bytes(&metadata_data).ok_or(FeoxError::InvalidMetadata)?;
             self.format_version = metadata.version;
             *self._metadata.write() = metadata;
+            if !self.read_only {
+                // The metadata just read may exist in the page cache only (a creation attempt
+                // that failed before its fsync leaves such a file behind). It has to be durable
+                // before the first journal write, or a crash could keep the journal block and
+                // lose the signature.
+                disk_io.read().flush()?;
+            }
             self.scan_and_rebuild_indexes()?;
         }
 
